@@ -1,8 +1,48 @@
 """C20 - object ids are never issued twice or for an object that already exists."""
+import os
 from .. import clock
 from ..drivers import storage as sd
 from . import _storage as S
 from .c04 import ASSUME
+
+
+def _alloc_threads(job):
+    kind, seed, stick, workdir = job
+    import shutil
+    from .. import sched
+    from ..concretize import u64
+    sched.install()
+    sched.S = None
+    shutil.rmtree(workdir, ignore_errors=True)
+    os.makedirs(workdir)
+    if kind == 'file':
+        from ZODB.FileStorage import FileStorage
+        st = FileStorage(os.path.join(workdir, 'Data.fs'))
+    elif kind == 'mapping':
+        from ZODB.MappingStorage import MappingStorage
+        st = MappingStorage()
+    else:
+        from ZODB.DemoStorage import DemoStorage
+        st = DemoStorage()
+    start = u64(st.new_oid())
+    Sc = sched.S = sched.Sched(seed, stick=stick)
+    trace = [{'ev': 'Start', 'start': start}]
+
+    def body():
+        for _ in range(3):
+            oid = st.new_oid()
+            trace.append({'ev': 'NewOid', 'oid': u64(oid) % (2 ** 31 - 1) if kind == 'demo' else u64(oid)})
+    for i in range(3):
+        Sc.spawn('a%d' % i, body)
+    outcome = Sc.go(timeout=30)
+    sched.S = None
+    errors = {k: repr(v)[:100] for k, v in Sc.errors.items()}
+    try:
+        st.close()
+    except Exception:
+        pass
+    shutil.rmtree(workdir, ignore_errors=True)
+    return {'kind': kind, 'seed': seed, 'trace': trace, 'outcome': outcome, 'errors': errors}
 
 
 def run(ctx):
@@ -20,16 +60,41 @@ def run(ctx):
         res = S.replay_all(ctx, files, kind, c)
         cov[kind] = S.judge(ctx, res, kind, focus=lambda r: r['actions'].get('NewOid', 0) >= 2)
         cov[kind]['sample'] = res[0]['sig'][:25]
-    ev = sum(v['behaviours'] for v in cov.values())
+    # concurrent allocators: real threads under the scheduler (switching where a lock is acquired); the calls in
+    # completion order are validated by TLC against the atomic NewOid (ZOidTrace)
+    import os
+    from .. import par, tlc
+    jobs = [(kind, ctx.seed * 100 + i, (0.2, 0.5, 0.8)[i % 3]) for i in range(120 if q else 3000) for kind in ('file', 'mapping', 'demo')]
+    sres = par.pmap(_alloc_threads, [j + (os.path.join(ctx.scratch, 'al-%d' % n),) for n, j in enumerate(jobs)], chunksize=8)
+    traces = [r['trace'] for r in sres]
+    accepted, rejected, tr = tlc.validate_traces('ZOidTrace', traces, os.path.join(ctx.scratch, 'tv'))
+    ctx.add_tlc('ZOidTrace-validation', tr)
+    for i, r in enumerate(sres):
+        if r['outcome'] != 'ok' or r['errors']:
+            ctx.violation({'storage': r['kind'], 'monitor': 'alloc-threads', 'what': r['outcome'] if r['outcome'] != 'ok' else 'thread-error'},
+                          '%s: allocator threads: %s %r (seed %d)' % (r['kind'], r['outcome'], r['errors'], r['seed']), replay=r)
+        if i in rejected and r['kind'] != 'demo':
+            ctx.violation({'storage': r['kind'], 'monitor': 'alloc-threads', 'what': 'not-linearizable'},
+                          '%s: concurrent new_oid calls returned %r: no order of atomic NewOid steps explains it (seed %d)' % (
+                              r['kind'], [e.get('oid') for e in r['trace'][1:]], r['seed']), replay=r)
+        oids = [e['oid'] for e in r['trace'][1:]]
+        if len(set(oids)) != len(oids):
+            ctx.violation({'storage': r['kind'], 'monitor': 'alloc-threads', 'what': 'duplicate'},
+                          '%s: concurrent new_oid calls returned a duplicate: %r (seed %d)' % (r['kind'], oids, r['seed']), replay=r)
+    cov['threads'] = {'schedules': len(sres), 'validated': len(accepted)}
+    ev = sum(v['behaviours'] for v in cov.values() if 'behaviours' in v) + len(sres)
     return ctx.finish({
         'evaluations': ev,
-        'distinct_nontrivial': sum(v['nontrivial'] for v in cov.values()),
+        'distinct_nontrivial': sum(v.get('nontrivial', 0) for v in cov.values()) + len({repr(r['trace']) for r in sres}),
         'rule': 'TLC -simulate behaviours of ZStorage under NextOid: new_oid interleaved with stores and restores of '
                 'arbitrary (never issued, larger) oids, aborts, commits and close/reopen; the oid returned by the real '
                 'new_oid must equal the specification (whose action property OidFresh TLC checks) and an independent '
-                'monitor requires it to be new for the session and absent from the storage; non-trivial = >= 2 new_oid calls',
+                'monitor requires it to be new for the session and absent from the storage; 3 allocator threads x 3 calls on '
+                'FileStorage, MappingStorage and DemoStorage run under the cooperative scheduler (seeded schedules), the calls '
+                'in completion order are validated by TLC against the atomic NewOid (ZOidTrace; demo: distinctness only, its '
+                'ids are random); non-trivial = >= 2 new_oid calls / distinct thread traces',
         'traces_validated_against_impl': ev,
         'per_storage': cov,
-        'samples': [cov[k]['sample'] for k in cov],
+        'samples': [cov[k]['sample'] for k in cov if 'sample' in cov[k]] + [sres[0]['trace']],
         'exhaustive': False,
     }, ASSUME + ['DemoStorage allocation is decided by C16; concurrent allocators by the scheduler part (to be added)'])
